@@ -1,5 +1,6 @@
 import ImathVerif.Lemmas.C12Wrap
 import ImathVerif.Lemmas.C12Post
+import ImathVerif.Lemmas.C12Angles
 import Mathlib.Analysis.SpecialFunctions.Complex.Arg
 import Mathlib.Analysis.SpecialFunctions.Sqrt
 /-!
@@ -599,6 +600,54 @@ theorem jacobiSVD_from_identity4 {α : Type} [CommRing α] (steps : List (Nat ×
   · rw [a]; simp
   · rw [b]; simp
   · rw [c]; simp
+
+/-! ### the COMPUTED rotation parameters (tolerance 0) -/
+
+/-- the parameters that `twoSidedJacobiRotation` computes from the 2×2 block `[[w, x], [y, z]]` with tolerance 0
+(symmetrise with `rho = (w+z)/(x-y)`, then diagonalise with `t = sign(rho₂)/(|rho₂| + sqrt (1 + rho₂²))`) are unit pairs
+that diagonalise the block EXACTLY; the early exit happens only when `x = y = 0`.  (With a positive tolerance the
+code treats nearly symmetric / nearly diagonal blocks as exact: that approximation is measured, not proved.) -/
+theorem twoSidedJacobiRotation_computed_parameters {sqrt : α → α} (hs : SqrtSpec sqrt) (w x y z : α) :
+    ((svdAngles 0 sqrt w x y z).changed = true ∧ Diagonalises (svdAngles 0 sqrt w x y z) w x y z) ∨
+    ((svdAngles 0 sqrt w x y z).changed = false ∧ x = 0 ∧ y = 0) :=
+  svdAngles_diagonalises hs w x y z
+
+/-- so with tolerance 0 the WHOLE rotation (parameters computed from the matrix, no hypothesis on them) is an
+orthogonal similarity, 3×3 and 4×4 -/
+theorem twoSidedJacobiRotation_tol0_invariant {sqrt : α → α} (hs : SqrtSpec sqrt) (j k : Nat) (hjk : j < k) (st : SVDState α) :
+    (k < 3 → prodUAV 3 (twoSidedJacobiRotation 0 sqrt j k st).2 = prodUAV 3 st ∧
+      toM 3 (twoSidedJacobiRotation 0 sqrt j k st).2.U * (toM 3 (twoSidedJacobiRotation 0 sqrt j k st).2.U)ᵀ = toM 3 st.U * (toM 3 st.U)ᵀ ∧
+      toM 3 (twoSidedJacobiRotation 0 sqrt j k st).2.V * (toM 3 (twoSidedJacobiRotation 0 sqrt j k st).2.V)ᵀ = toM 3 st.V * (toM 3 st.V)ᵀ) ∧
+    (k < 4 → prodUAV 4 (twoSidedJacobiRotation 0 sqrt j k st).2 = prodUAV 4 st ∧
+      toM 4 (twoSidedJacobiRotation 0 sqrt j k st).2.U * (toM 4 (twoSidedJacobiRotation 0 sqrt j k st).2.U)ᵀ = toM 4 st.U * (toM 4 st.U)ᵀ ∧
+      toM 4 (twoSidedJacobiRotation 0 sqrt j k st).2.V * (toM 4 (twoSidedJacobiRotation 0 sqrt j k st).2.V)ᵀ = toM 4 st.V * (toM 4 st.V)ᵀ) :=
+  ⟨fun hk => svdApply_invariant3 (stepOK_tol0 hs 3 j k hjk hk st), fun hk => svdApply_invariant4 (stepOK_tol0 hs 4 j k hjk hk st)⟩
+
+/-- any number of sweeps (any list of index pairs `j < k < n`) with tolerance 0 preserves `U·A·Vᵀ` and orthogonality -/
+theorem jacobiSVD_sweeps_tol0_invariant3 {sqrt : α → α} (hs : SqrtSpec sqrt) (pairs : List (Nat × Nat))
+    (hp : ∀ jk ∈ pairs, jk.1 < jk.2 ∧ jk.2 < 3) (st : SVDState α) :
+    prodUAV 3 (runPairs sqrt st pairs) = prodUAV 3 st ∧
+    toM 3 (runPairs sqrt st pairs).U * (toM 3 (runPairs sqrt st pairs).U)ᵀ = toM 3 st.U * (toM 3 st.U)ᵀ ∧
+    toM 3 (runPairs sqrt st pairs).V * (toM 3 (runPairs sqrt st pairs).V)ᵀ = toM 3 st.V * (toM 3 st.V)ᵀ := by
+  induction pairs generalizing st with
+  | nil => exact ⟨rfl, rfl, rfl⟩
+  | cons jk rest ih =>
+    have h := hp jk (List.mem_cons_self ..)
+    obtain ⟨a, b, c⟩ := svdApply_invariant3 (stepOK_tol0 hs 3 jk.1 jk.2 h.1 h.2 st)
+    obtain ⟨a', b', c'⟩ := ih (fun q hq => hp q (List.mem_cons_of_mem _ hq)) (twoSidedJacobiRotation 0 sqrt jk.1 jk.2 st).2
+    exact ⟨a'.trans a, b'.trans b, c'.trans c⟩
+theorem jacobiSVD_sweeps_tol0_invariant4 {sqrt : α → α} (hs : SqrtSpec sqrt) (pairs : List (Nat × Nat))
+    (hp : ∀ jk ∈ pairs, jk.1 < jk.2 ∧ jk.2 < 4) (st : SVDState α) :
+    prodUAV 4 (runPairs sqrt st pairs) = prodUAV 4 st ∧
+    toM 4 (runPairs sqrt st pairs).U * (toM 4 (runPairs sqrt st pairs).U)ᵀ = toM 4 st.U * (toM 4 st.U)ᵀ ∧
+    toM 4 (runPairs sqrt st pairs).V * (toM 4 (runPairs sqrt st pairs).V)ᵀ = toM 4 st.V * (toM 4 st.V)ᵀ := by
+  induction pairs generalizing st with
+  | nil => exact ⟨rfl, rfl, rfl⟩
+  | cons jk rest ih =>
+    have h := hp jk (List.mem_cons_self ..)
+    obtain ⟨a, b, c⟩ := svdApply_invariant4 (stepOK_tol0 hs 4 jk.1 jk.2 h.1 h.2 st)
+    obtain ⟨a', b', c'⟩ := ih (fun q hq => hp q (List.mem_cons_of_mem _ hq)) (twoSidedJacobiRotation 0 sqrt jk.1 jk.2 st).2
+    exact ⟨a'.trans a, b'.trans b, c'.trans c⟩
 
 /-! ### post-passes: sign fix-up, sorting, forcePositiveDeterminant preserve `U·diag(S)·Vᵀ`, `U·Uᵀ`, `V·Vᵀ` -/
 
